@@ -1731,6 +1731,47 @@ def _is_abstract(p, f: Func) -> bool:
     return True
 
 
+def _self_bindings(p, cq: str, f: Func, depth: int):
+    """(attr -> CFG node ids of `f` after which self.<attr> is bound, cfg of f, attrs bound at all).
+    A node binds the attribute when it stores to it directly, or when it is a plain call statement
+    `self._helper(...)` of a method of the same class (found through the MRO of `cq`) that itself binds the attribute
+    on EVERY normal path (the helper's stores are the constructor's: same receiver, same point of the path).  An
+    attribute a helper binds on some of its paths only gets an entry with no node from that call."""
+    cfg = cfg_of(f, p)
+    sn = f.params()[0] if f.params() else 'self'
+    assigned: Dict[str, List[int]] = {}
+    for n in walk_self(f.node):
+        if isinstance(n, ast.Call) and isinstance(n.func, ast.Name) and n.func.id == 'setattr':
+            raise UnknownIdiom('%s binds attributes through setattr()' % f.qual)
+    for n in cfg.live_nodes():
+        if n.kind != 'stmt':
+            continue
+        if isinstance(n.ast, (ast.Assign, ast.AnnAssign)) and getattr(n.ast, 'value', None) is not None:
+            for t in (n.ast.targets if isinstance(n.ast, ast.Assign) else [n.ast.target]):
+                for x in (t.elts if isinstance(t, (ast.Tuple, ast.List)) else [t]):
+                    if isinstance(x, ast.Attribute) and isinstance(x.value, ast.Name) and x.value.id == sn:
+                        assigned.setdefault(x.attr, []).append(n.id)
+            continue
+        if not (isinstance(n.ast, ast.Expr) and isinstance(n.ast.value, ast.Call)):
+            continue
+        call = n.ast.value
+        if not (isinstance(call.func, ast.Attribute) and isinstance(call.func.value, ast.Name) and call.func.value.id == sn):
+            continue
+        h = p.lookup_method(cq, call.func.attr)
+        if h is None or h.is_async or h.node is f.node:
+            continue
+        if depth >= 3:
+            raise UnknownIdiom('%s: constructor helpers nested deeper than 3 calls' % f.qual)
+        h_assigned, h_cfg, _m = _self_bindings(p, cq, h, depth + 1)
+        for attr, ids in h_assigned.items():
+            must = bool(ids) and flow.find_path(h_cfg, [h_cfg.entry], [h_cfg.exit], avoid_nodes=ids,
+                                                edge_filter=flow.no_exc) is None
+            lst = assigned.setdefault(attr, [])
+            if must:
+                lst.append(n.id)
+    return assigned, cfg, set(assigned)
+
+
 def r8_handler_slots_bound(run):
     """A media handler may choose its (de)serializer implementation per instance (`self.serialize = self._serialize_b`).
     Such a slot has no working class-level fallback when the method found through the MRO is one of BaseHandler's
@@ -1756,18 +1797,7 @@ def r8_handler_slots_bound(run):
         assigned: Dict[str, List[int]] = {}
         cfg = None
         if init is not None:
-            cfg = cfg_of(init, p)
-            sn = init.params()[0] if init.params() else 'self'
-            for n in cfg.live_nodes():
-                if n.kind != 'stmt' or not isinstance(n.ast, (ast.Assign, ast.AnnAssign)) or getattr(n.ast, 'value', None) is None:
-                    continue
-                for t in (n.ast.targets if isinstance(n.ast, ast.Assign) else [n.ast.target]):
-                    for x in (t.elts if isinstance(t, (ast.Tuple, ast.List)) else [t]):
-                        if isinstance(x, ast.Attribute) and isinstance(x.value, ast.Name) and x.value.id == sn:
-                            assigned.setdefault(x.attr, []).append(n.id)
-            for n in walk_self(init.node):
-                if isinstance(n, ast.Call) and isinstance(n.func, ast.Name) and n.func.id == 'setattr':
-                    raise UnknownIdiom('%s binds attributes through setattr()' % init.qual)
+            assigned, cfg, _may = _self_bindings(p, cq, init, 0)
 
         def fallback(name: str) -> str:
             m = p.lookup_method(cq, name)
